@@ -68,7 +68,8 @@ theorem parse_renderF (e : FExpr) (ws : Layout) (hwf : WFF e) (hl : QueryLayoutO
 theorem repF_kind {x : Tree} {e : FExpr} (h : RepF x e) :
     (x.kind == Syntax.WHITESPACE) = false := by
   cases h with
-  | num hk _ _ => rw [hk]; rfl
+  | num hk _ _ _ => rw [hk]; rfl
+  | pct _ _ _ => rfl
   | @fact t f more hk _ _ => rw [hk]; split <;> rfl
   | paren _ _ => rfl
   | chain _ _ _ _ _ => rfl
